@@ -382,7 +382,7 @@ def judge_a64(c, line, rec, st, replay, vnames=None, labels=None, kind="asm"):
                     if mc is None:
                         st.viol.append(("a64:machine-code:missing", "kMachineCode set, no column in `%s`" % lines[0], replay))
                     else:
-                        st.c["machine_code_columns_checked"] += 1
+                        st.c["machine_code_columns_checked"] += sum(1 for f2 in r["ff"] if f2 & 1)
                         m2 = F.check_machine_code(mc, r["bytes"], False)
                         if m2:
                             st.viol.append(("a64:machine-code:mismatch", "%s: column `%s`, bytes %s; case: %s" % (m2, mc, r["bytes"], line), replay))
@@ -707,7 +707,7 @@ def run(tier, args):
     if tier == "quick":
         budget, deep, nshards = max(2, int(12 * scale)), False, 16
     else:
-        budget, deep, nshards = max(2, int(10 * scale)), False, 64
+        budget, deep, nshards = max(2, int(24 * scale)), True, 64
     if rp is None or rp.get("part") == "x86":
         if rp:
             jobs.append((_x86_entry, (rp["shard"], rp["nshards"], chk.seed, rp["budget"], rp["deep"], exe, tier, set(rp["ids"]))))
@@ -723,7 +723,7 @@ def run(tier, args):
                 known.add(p[0])
         if len(known) < 100:
             raise common.HarnessError("driver lists only %d AArch64 instruction names" % len(known))
-        nrandom = max(1, int((8 if tier == "quick" else 16) * scale))
+        nrandom = max(1, int((8 if tier == "quick" else 40) * scale))
         acases, gstats = a64gen.generate(recs, chk.seed, "quick", known, nrandom=nrandom)
         idx = list(enumerate(acases))
         if scale < 1.0:
